@@ -1,6 +1,6 @@
 use crate::diagnostic_emitter::MosResult;
 use crate::impl_request_handler;
-use crate::lsp::{LspContext, RequestHandler};
+use crate::lsp::{to_path, LspContext, RequestHandler};
 use itertools::Itertools;
 use lsp_types::request::Completion;
 use lsp_types::{CompletionItem, CompletionParams, CompletionResponse};
@@ -21,12 +21,7 @@ impl RequestHandler<Completion> for CompletionHandler {
         if let Some(codegen) = &ctx.codegen {
             let codegen = codegen.lock().unwrap();
             if let Some(tree) = &ctx.tree {
-                let path = &params
-                    .text_document_position
-                    .text_document
-                    .uri
-                    .to_file_path()
-                    .unwrap();
+                let path = &to_path(&params.text_document_position.text_document.uri);
 
                 let source_line = params.text_document_position.position.line as usize;
                 let source_column = params.text_document_position.position.character as usize;
